@@ -17,6 +17,14 @@ segmentation with frames and scores, alignment at word/phone/state level, decode
 every feature vector, alignment-pass reads) of every pattern must be IDENTICAL to the record of the
 reference pattern (one int16 call, immediate search, no queries) of the same clip with the same CMN
 state set by decoder_set_cmn before the utterance.
+
+Round 3 (wave 5): (a) ring-residue sweep -- the live feature ring of feat.c is never reset, so the write position at
+the end-of-utterance flush is a residue mod LIVEBUFBLOCKSIZE fixed by the decoder's history; `ring_phase_family` sets
+it (streamed warm-up of chosen length, variant and reference of the same clip at different residues, one process per
+case), `ring_unit_tie` (harness/h_c07r.c vs driver command `ring`) compares the real feat_s2mfc2feat_live with the
+model function featLive at EVERY ring position for a list of call shapes (Props/C07Ring.lean); (b) early and refused
+queries -- `early_query_family` asks for hypothesis / segmentation / alignment after 0, 1, 2, ... frames searched,
+`q ralign` reaches decoder_alignment also when there is no hypothesis (request refused, NULL; Props/C07Query.lean).
 """
 import json, re
 import vlib
@@ -1150,6 +1158,8 @@ def check(c):
     c.trusted += ["harness/h_c07.c (observation of front-end calls and acmod_score through linker --wrap, result record printing) "
                   "+ tools/props/c07.py (generator, canonicalisation, diff, record comparison)",
                   "tools/gen_acmod.py (extraction of LIVEBUFBLOCKSIZE, ring sizes, CMN_WIN(_HWM), window sizes)",
+                  "harness/h_c07r.c (marker-valued frames through the real feat_s2mfc2feat_live at every ring position; reads "
+                  "fcb->cepbuf / bufpos / curpos and three coefficients of each feature vector)",
                   "determinism of the compiled front end / GMM / search for identical feature vectors (C08)",
                   "C06: the cepstral frames themselves do not depend on chunking (the D25 class is reported under its own key)",
                   "clang ASan/UBSan + assert() as observers of out-of-range accesses in acmod.c / feat.c"]
